@@ -11,45 +11,12 @@ use vharness::dumpgen::*;
 use vharness::walk::block_on;
 use vharness::{for_each_case, guarded, install_panic_capture, Report};
 
-const EXC_IP: u64 = 0x400900;
-fn thread_ip(spot: &str, k: usize) -> u64 {
-    match spot { "mod" => 0x400100 + k as u64, "unl" => 0x600100 + k as u64, "unl2" => 0x600900 + k as u64, _ => 0x700000 + k as u64 }
-}
-fn addr_val(class: &str, base: u64) -> u64 { if class == "hi" { 0xffff_ffff_8000_0000 | base } else { base } }
-
 fn main() {
     install_panic_capture();
     let path = std::env::args().nth(1).unwrap();
     let mut rep = Report::new();
     for_each_case(&path, "CASE", |c| {
-        let os = c["plat"][0].as_str().unwrap();
-        let cpu = c["plat"][1].as_str().unwrap();
-        let mut spec = DumpSpec { os: os.into(), cpu: cpu.into(), ..DumpSpec::default() };
-        for (k, t) in c["threads"].as_array().unwrap().iter().enumerate() {
-            let id = t["id"].as_u64().unwrap() as u32;
-            spec.threads.push(ThreadSpec { id, ctx_ok: t["ctxOk"].as_bool().unwrap(), name: if t["named"].as_bool().unwrap() { Some(format!("T{}", id)) } else { None },
-                                           ip: thread_ip(t["spot"].as_str().unwrap(), k), sp: 0x10000 + 0x100 * k as u64, stack_base: 0x10000 + 0x100 * k as u64, stack: vec![0u8; 16] });
-        }
-        let e = &c["exc"];
-        if e["k"] == "some" {
-            let code = match e["code"].as_str().unwrap() { "av" => 0xC000_0005u32, "inpage" => 0xC000_0006, _ => 0xC000_001D };
-            let mut info = [0u64; 15];
-            info[0] = e["kind"].as_u64().unwrap();
-            info[1] = addr_val(e["info1"].as_str().unwrap(), 0x1000);
-            info[2] = 0xC000_009A;
-            spec.exception = Some(ExcSpec { tid: e["tid"].as_u64().unwrap() as u32, has_ctx: e["hasCtx"].as_bool().unwrap(), ctx_ok: e["ctxOk"].as_bool().unwrap(), ctx_ip: EXC_IP, ctx_sp: 0x10000,
-                                            code, flags: 0, address: addr_val(e["addr"].as_str().unwrap(), EXC_IP), nparams: e["np"].as_u64().unwrap() as u32, info, ctx_patch: vec![] });
-        }
-        if c["bp"]["k"] == "some" {
-            let f = |v: u64| if v == 0 { None } else { Some(v as u32) };
-            spec.breakpad = Some((f(c["bp"]["dump"].as_u64().unwrap()), f(c["bp"]["req"].as_u64().unwrap())));
-        }
-        spec.misc_pid = match c["misc"].as_str().unwrap() { "pid" => Some(Some(4242)), "nopid" => Some(None), _ => None };
-        if c["status"] == "pid" { spec.proc_status = Some("Name:\tx\nPid:\t777\n".into()); }
-        spec.modules = vec![ModuleSpec { base: 0x400000, size: 0x1000, name: "m1".into() }];
-        // u3 covers none of the probed addresses but sorts between u1 and u2
-        spec.unloaded = vec![ModuleSpec { base: 0x600000, size: 0x1000, name: "u1".into() }, ModuleSpec { base: 0x600800, size: 0x1000, name: "u2".into() },
-                             ModuleSpec { base: 0x600400, size: 0x100, name: "u3".into() }];
+        let spec = from_processor_case(&c);
         let bytes = build(&spec);
         let exp = &c["exp"];
         rep.evaluations += 1;
